@@ -49,14 +49,17 @@ def run(ctx):
         r = out.get((c["case"], "c/any"))
         if r and r["err"] == "none":
             valid.setdefault(c["ti"], []).append(bytes(r["bytes"]))
-    # 2. deserialization of arbitrary bytes into fresh / poisoned / reused objects
+    # 2. deserialization of arbitrary bytes into fresh / poisoned / reused objects; a reused object first decodes the valid encoding with the
+    #    most non-zero bytes (so that every nested object, array and union alternative holds something that must not survive)
+    populate = {ti: max(encs, key=lambda e: sum(1 for x in e if x)) for ti, encs in valid.items() if encs}
     dcases = []
     for ti, t in enumerate(camp.types):
         maxb = codec.dsdl.max_bits_body(t) // 8
         for data, why in codec.byte_strings(rng, valid.get(ti, [])[:3], maxb, ctx.pick(4, 10), not ctx.quick):
             if why in ("bitflip", "byteset", "extended") and rng.random() < 0.5 and ctx.quick:
                 continue
-            dcases.append({"ti": ti, "data": data, "why": why, "case": camp.new_case(), "null": why == "null", "priors": (0, 1, 2), "per_target": True})
+            dcases.append({"ti": ti, "data": data, "why": why, "case": camp.new_case(), "null": why == "null", "priors": (0, 1, 2), "per_target": True,
+                           "populate": populate.get(ti)})
     res = camp.des_events(dcases)
     crashes += res.get("crash", [])
     # verdicts: a call that did not return
